@@ -84,3 +84,24 @@ MUTANTS += [
 CONTROLS += [
     mut('ctl-clear-cache-reordered', ['C04'], (SG, "        self._cached_response_spectra = False\n        self._cached_disp_and_velo = False\n        self.reset_all_motion_stats()", "        self._cached_disp_and_velo = False\n        self._cached_response_spectra = False\n        self.reset_all_motion_stats()"), control=True),
 ]
+
+MUTANTS += [
+    # ---- C03 -----------------------------------------------------------------------------------------------------
+    mut('c03-cut-6-to-5-pseudo', ['C03'], (SD, "    sas = w ** 2 * sds\n    sas = np.where(periods < dt * 6, absmax(motion), sas)", "    sas = w ** 2 * sds\n    sas = np.where(periods < dt * 5, absmax(motion), sas)")),
+    mut('c03-cut-6-to-7-true', ['C03'], (SD, "    sds = absmax(resp_u, axis=1)\n    sas = np.where(periods < dt * 6, absmax(motion), sas)", "    sds = absmax(resp_u, axis=1)\n    sas = np.where(periods < dt * 7, absmax(motion), sas)")),
+    mut('c03-lt-to-le-at-6dt', ['C03'], (SD, "    sas = w ** 2 * sds\n    sas = np.where(periods < dt * 6, absmax(motion), sas)", "    sas = w ** 2 * sds\n    sas = np.where(periods <= dt * 6, absmax(motion), sas)")),
+    mut('c03-true-sv-from-u', ['C03'], (SD, "    svs = absmax(resp_v, axis=1)\n    sds = absmax(resp_u, axis=1)", "    svs = absmax(resp_u, axis=1)\n    sds = absmax(resp_u, axis=1)")),
+    mut('c03-absmax-signed', ['C03'], (SD, "    return abs(np.where(-amin > amax, amin, amax))", "    return np.where(-amin > amax, amin, amax)")),
+    mut('c03-absmax-ignores-min', ['C03', 'C02'], (SD, "    return abs(np.where(-amin > amax, amin, amax))", "    return abs(amax)")),
+    mut('c03-w0-placeholder-leaks', ['C03'], (SD, "    sas = np.where(periods < dt * 6, absmax(motion), sas)\n    return sds, svs, sas\n\n\ndef response_series", "    sas = np.where((periods < dt * 6) & (periods > 0), absmax(motion), sas)\n    return sds, svs, sas\n\n\ndef response_series")),
+    mut('c03-target-step-div10', ['C03'], (SG, "target_dt = max(min_non_zero_period / 20, self.dt / min_dt_ratio)", "target_dt = max(min_non_zero_period / 10, self.dt / min_dt_ratio)")),
+    mut('c03-min_dt_ratio-ignored', ['C03'], (SG, "target_dt = max(min_non_zero_period / 20, self.dt / min_dt_ratio)", "target_dt = max(min_non_zero_period / 20, self.dt / 4)")),
+    mut('c03-energy-uses-u', ['C03'], (SD, "        return np.sum(acc_signal.values * resp_v * acc_signal.dt, axis=1)", "        return np.sum(acc_signal.values * resp_u * acc_signal.dt, axis=1)")),
+    mut('c03-uke-no-abs', ['C03'], (SD, "    cum_delta_energy = np.sum(abs(delta_energy), axis=1)", "    cum_delta_energy = np.sum(delta_energy, axis=1)")),
+    mut('c03-psv-uses-lib-w', ['C03'], (SD, "        s = 0\n        w = 2 * np.pi / periods\n    resp_u", "        s = 0\n        w = 6.28 / periods\n    resp_u")),
+    mut('c03-F1-regress', ['C03'], (SD, "    periods = np.array(periods, dtype=float)\n    resp_u, resp_v, resp_a = nigam_and_jennings_response(motion, dt, periods, xi)\n    sas = absmax(resp_a, axis=1)", "    resp_u, resp_v, resp_a = nigam_and_jennings_response(motion, dt, periods, xi)\n    sas = absmax(resp_a, axis=1)")),
+    mut('c03-interp-even-true', ['C03'], (SG, "interp_array_to_approx_dt(self.values, self.dt, target_dt, even=False)", "interp_array_to_approx_dt(self.values[:-1], self.dt, target_dt, even=False)")),
+]
+CONTROLS += [
+    mut('ctl-absmax-via-abs', ['C03', 'C02'], (SD, "    return abs(np.where(-amin > amax, amin, amax))", "    return np.maximum(np.abs(amin), np.abs(amax))"), control=True),
+]
